@@ -1234,6 +1234,14 @@ pub fn generate(thorough: bool, seed: u64, out: &mut dyn Write) {
         let m = gen_model(&mut rng, &o);
         writeln!(out, "declfill fill={} {}", rng.next() >> 1, m.tokens()).unwrap();
     }
+    // damaged encodings (`mut <seed> <k> parse …`, Base/Mutate.lean): 1..3 bytes of the encoded file
+    // changed, half of them inside the headers / declarations / tables; the model of the code and
+    // the code must agree on the result (mostly a rejection or a model with one other value)
+    for i in 0..if thorough { 20000 } else { 300 } {
+        let o = GenOpts { max_meshes: if i % 5 == 0 { 4 } else { 2 }, max_vertices: 30, combos: COMBOS, v5_only: false, canonical: false };
+        let m = gen_model(&mut rng, &o);
+        writeln!(out, "mut {} {} parse {}", rng.next() >> 1, 1 + rng.below(3), m.tokens()).unwrap();
+    }
     // wide tables (see `gen_wide`): the version-6 bone table at every boundary count on every run,
     // every other table once per run (thorough: 60 times)
     for n in [255usize, 256, 257, 300] {
